@@ -9,7 +9,7 @@
 From Coq Require Import List Arith Bool Lia NArith.
 From Coq.Strings Require Import Byte.
 From Verif Require Import Base.Bytes Gen.FileManager Gen.FileManagerFacts Gen.Determinism Corr.C12
-                          Gen.FileManagerText.
+                          Gen.FileManagerText Gen.FileManagerOrder.
 Import ListNotations.
 
 Fixpoint expand (ps : list gen) (skip : nat) (s : bytes) : bytes :=
@@ -106,8 +106,9 @@ Theorem build_one_patched m name content :
 Proof.
   intro Hw. unfold build_one. f_equal. unfold replace.
   apply replace_is_expand.
-  - apply key_markers_fold; [exact Hw|]. apply marker_pairs_key_markers, init_pairs_marker_pairs.
-  - intros mk Hin. rewrite patch_fold_lookup.
+  - intros k v Hin. apply In_listed in Hin. revert k v Hin.
+    apply key_markers_fold; [exact Hw|]. apply marker_pairs_key_markers, init_pairs_marker_pairs.
+  - intros mk Hin. rewrite lookup_listed, patch_fold_lookup.
     pose proof (found_marker_is_key content mk Hin) as Hk.
     destruct (lookup mk (init_pairs content)) as [v|] eqn:El; [|congruence].
     apply lookup_In in El. destruct (init_pairs_marker_pairs content _ _ El) as [-> _]. reflexivity.
